@@ -93,8 +93,8 @@ PROPS = {'C18': {'title': 'Inflights window is a bounded FIFO under resizing',
                        'DESIGN.md A.4'],
          'assumptions': ['mode S for raft.rs and raw_node.rs (fatal!/panic!/assert! abort; postconditions hold on normal return)',
                          'assumed contracts (fingerprint-locked in spec/assumed.lock.json): ProgressTracker::{get_mut, record_vote, clear}, '
-                         'Configuration::to_conf_state, Raft::has_unapplied_conf_changes, RaftCore::try_batching, '
-                         'ReadOnly::* (abstract model of the pending-read table)',
+                         'Configuration::to_conf_state, Raft::has_unapplied_conf_changes (K-ext Kani), RaftCore::try_batching (K-ext Kani); '
+                         'ReadOnly is under contract over a byte-keyed view of its table: the five std HashMap operations with Vec<u8> / &[u8] keys are specified helpers (verif_ri_*)',
                          'specified helpers for std / protobuf calls (R9) and the three cut texts (R10) listed in the evidence file'],
          'bounded': ['mon_c06 --prop C20 (RawNode driver, panics only)', 'mon_cluster --prop C20 (three nodes, lossy network, panics only)']},
  'C11': {'title': 'Quorum arithmetic: commit index and vote tallies are exact',
@@ -135,8 +135,8 @@ PROPS = {'C18': {'title': 'Inflights window is a bounded FIFO under resizing',
                      'mon_c14 (log reads)'],
          'assumptions': ['mode S for raft.rs and raw_node.rs (fatal!/panic!/assert! abort; postconditions hold on normal return)',
                          'assumed contracts (fingerprint-locked in spec/assumed.lock.json): ProgressTracker::{get_mut, record_vote, clear}, '
-                         'Configuration::to_conf_state, Raft::has_unapplied_conf_changes, RaftCore::try_batching, '
-                         'ReadOnly::* (abstract model of the pending-read table)',
+                         'Configuration::to_conf_state, Raft::has_unapplied_conf_changes (K-ext Kani), RaftCore::try_batching (K-ext Kani); '
+                         'ReadOnly is under contract over a byte-keyed view of its table: the five std HashMap operations with Vec<u8> / &[u8] keys are specified helpers (verif_ri_*)',
                          'specified helpers for std / protobuf calls (R9) and the three cut texts (R10) listed in the evidence file']},
  'C03': {'title': 'Leader completeness and the election restriction',
          'modules': ['top', 'prelude', 'pb', 'inflights', 'progress', 'quorum', 'tracker', 'log_unstable', 'storage_trait', 'raft_log', 'raft'],
@@ -152,8 +152,8 @@ PROPS = {'C18': {'title': 'Inflights window is a bounded FIFO under resizing',
          'undecided': ['leader completeness itself (cluster-wide induction)'],
          'assumptions': ['mode S for raft.rs and raw_node.rs (fatal!/panic!/assert! abort; postconditions hold on normal return)',
                          'assumed contracts (fingerprint-locked in spec/assumed.lock.json): ProgressTracker::{get_mut, record_vote, clear}, '
-                         'Configuration::to_conf_state, Raft::has_unapplied_conf_changes, RaftCore::try_batching, '
-                         'ReadOnly::* (abstract model of the pending-read table)',
+                         'Configuration::to_conf_state, Raft::has_unapplied_conf_changes (K-ext Kani), RaftCore::try_batching (K-ext Kani); '
+                         'ReadOnly is under contract over a byte-keyed view of its table: the five std HashMap operations with Vec<u8> / &[u8] keys are specified helpers (verif_ri_*)',
                          'specified helpers for std / protobuf calls (R9) and the three cut texts (R10) listed in the evidence file'],
          'cone': {'P': [], 'S': ['raft']},
          'bounded': ["mon_cluster --prop C03: committed prefixes are contained in every later leader's log; one value per applied index"]},
@@ -169,8 +169,8 @@ PROPS = {'C18': {'title': 'Inflights window is a bounded FIFO under resizing',
          'undecided': ['the crash-point statement over all schedules'],
          'assumptions': ['mode S for raft.rs and raw_node.rs (fatal!/panic!/assert! abort; postconditions hold on normal return)',
                          'assumed contracts (fingerprint-locked in spec/assumed.lock.json): ProgressTracker::{get_mut, record_vote, clear}, '
-                         'Configuration::to_conf_state, Raft::has_unapplied_conf_changes, RaftCore::try_batching, '
-                         'ReadOnly::* (abstract model of the pending-read table)',
+                         'Configuration::to_conf_state, Raft::has_unapplied_conf_changes (K-ext Kani), RaftCore::try_batching (K-ext Kani); '
+                         'ReadOnly is under contract over a byte-keyed view of its table: the five std HashMap operations with Vec<u8> / &[u8] keys are specified helpers (verif_ri_*)',
                          'specified helpers for std / protobuf calls (R9) and the three cut texts (R10) listed in the evidence file'],
          'cone': {'S': ['raft', 'raw_node', 'memstorage']},
          'bounded': ['mon_c06: every message checked at release time against the durable hard state (sync + async readies)']},
@@ -186,8 +186,8 @@ PROPS = {'C18': {'title': 'Inflights window is a bounded FIFO under resizing',
          'undecided': ['"a healthy leader is never deposed" as a history statement'],
          'assumptions': ['mode S for raft.rs and raw_node.rs (fatal!/panic!/assert! abort; postconditions hold on normal return)',
                          'assumed contracts (fingerprint-locked in spec/assumed.lock.json): ProgressTracker::{get_mut, record_vote, clear}, '
-                         'Configuration::to_conf_state, Raft::has_unapplied_conf_changes, RaftCore::try_batching, '
-                         'ReadOnly::* (abstract model of the pending-read table)',
+                         'Configuration::to_conf_state, Raft::has_unapplied_conf_changes (K-ext Kani), RaftCore::try_batching (K-ext Kani); '
+                         'ReadOnly is under contract over a byte-keyed view of its table: the five std HashMap operations with Vec<u8> / &[u8] keys are specified helpers (verif_ri_*)',
                          'specified helpers for std / protobuf calls (R9) and the three cut texts (R10) listed in the evidence file'],
          'cone': {'S': ['raft']}},
  'C07': {'title': 'Ready contract: exact, ordered, persisted-only hand-off of entries',
@@ -204,8 +204,8 @@ PROPS = {'C18': {'title': 'Inflights window is a bounded FIFO under resizing',
          'undecided': ['exactly-once over the lifetime'],
          'assumptions': ['mode S for raft.rs and raw_node.rs (fatal!/panic!/assert! abort; postconditions hold on normal return)',
                          'assumed contracts (fingerprint-locked in spec/assumed.lock.json): ProgressTracker::{get_mut, record_vote, clear}, '
-                         'Configuration::to_conf_state, Raft::has_unapplied_conf_changes, RaftCore::try_batching, '
-                         'ReadOnly::* (abstract model of the pending-read table)',
+                         'Configuration::to_conf_state, Raft::has_unapplied_conf_changes (K-ext Kani), RaftCore::try_batching (K-ext Kani); '
+                         'ReadOnly is under contract over a byte-keyed view of its table: the five std HashMap operations with Vec<u8> / &[u8] keys are specified helpers (verif_ri_*)',
                          'specified helpers for std / protobuf calls (R9) and the three cut texts (R10) listed in the evidence file',
                          'VecDeque::front/back standard semantics'],
          'cone': {'P': [], 'S': []},
@@ -222,8 +222,8 @@ PROPS = {'C18': {'title': 'Inflights window is a bounded FIFO under resizing',
          'undecided': ['log matching between nodes (cluster statement)'],
          'assumptions': ['mode S for raft.rs and raw_node.rs (fatal!/panic!/assert! abort; postconditions hold on normal return)',
                          'assumed contracts (fingerprint-locked in spec/assumed.lock.json): ProgressTracker::{get_mut, record_vote, clear}, '
-                         'Configuration::to_conf_state, Raft::has_unapplied_conf_changes, RaftCore::try_batching, '
-                         'ReadOnly::* (abstract model of the pending-read table)',
+                         'Configuration::to_conf_state, Raft::has_unapplied_conf_changes (K-ext Kani), RaftCore::try_batching (K-ext Kani); '
+                         'ReadOnly is under contract over a byte-keyed view of its table: the five std HashMap operations with Vec<u8> / &[u8] keys are specified helpers (verif_ri_*)',
                          'specified helpers for std / protobuf calls (R9) and the three cut texts (R10) listed in the evidence file',
                          'R10: the stamping loop of append_entry'],
          'cone': {'P': [], 'S': ['raft']},
@@ -243,8 +243,8 @@ PROPS = {'C18': {'title': 'Inflights window is a bounded FIFO under resizing',
          'undecided': ['durability on a quorum as a cluster statement'],
          'assumptions': ['mode S for raft.rs and raw_node.rs (fatal!/panic!/assert! abort; postconditions hold on normal return)',
                          'assumed contracts (fingerprint-locked in spec/assumed.lock.json): ProgressTracker::{get_mut, record_vote, clear}, '
-                         'Configuration::to_conf_state, Raft::has_unapplied_conf_changes, RaftCore::try_batching, '
-                         'ReadOnly::* (abstract model of the pending-read table)',
+                         'Configuration::to_conf_state, Raft::has_unapplied_conf_changes (K-ext Kani), RaftCore::try_batching (K-ext Kani); '
+                         'ReadOnly is under contract over a byte-keyed view of its table: the five std HashMap operations with Vec<u8> / &[u8] keys are specified helpers (verif_ri_*)',
                          'specified helpers for std / protobuf calls (R9) and the three cut texts (R10) listed in the evidence file',
                          'VecDeque::front/back standard semantics'],
          'bounded': ['mon_c04: single-voter RawNode with late / repeated / stale notices', 'mon_cluster --prop C04']},
@@ -292,8 +292,8 @@ PROPS = {'C18': {'title': 'Inflights window is a bounded FIFO under resizing',
          'undecided': ['application state equality (outside the library)'],
          'assumptions': ['mode S for raft.rs and raw_node.rs (fatal!/panic!/assert! abort; postconditions hold on normal return)',
                          'assumed contracts (fingerprint-locked in spec/assumed.lock.json): ProgressTracker::{get_mut, record_vote, clear}, '
-                         'Configuration::to_conf_state, Raft::has_unapplied_conf_changes, RaftCore::try_batching, '
-                         'ReadOnly::* (abstract model of the pending-read table)',
+                         'Configuration::to_conf_state, Raft::has_unapplied_conf_changes (K-ext Kani), RaftCore::try_batching (K-ext Kani); '
+                         'ReadOnly is under contract over a byte-keyed view of its table: the five std HashMap operations with Vec<u8> / &[u8] keys are specified helpers (verif_ri_*)',
                          'specified helpers for std / protobuf calls (R9) and the three cut texts (R10) listed in the evidence file'],
          'cone': {'P': [], 'S': ['raft']},
          'bounded': []},
@@ -311,8 +311,8 @@ PROPS = {'C18': {'title': 'Inflights window is a bounded FIFO under resizing',
          'undecided': ['identical configurations at equal applied index across nodes (history statement)'],
          'assumptions': ['mode S for raft.rs and raw_node.rs (fatal!/panic!/assert! abort; postconditions hold on normal return)',
                          'assumed contracts (fingerprint-locked in spec/assumed.lock.json): ProgressTracker::{get_mut, record_vote, clear}, '
-                         'Configuration::to_conf_state, Raft::has_unapplied_conf_changes, RaftCore::try_batching, '
-                         'ReadOnly::* (abstract model of the pending-read table)',
+                         'Configuration::to_conf_state, Raft::has_unapplied_conf_changes (K-ext Kani), RaftCore::try_batching (K-ext Kani); '
+                         'ReadOnly is under contract over a byte-keyed view of its table: the five std HashMap operations with Vec<u8> / &[u8] keys are specified helpers (verif_ri_*)',
                          'specified helpers for std / protobuf calls (R9) and the three cut texts (R10) listed in the evidence file',
                          'protobuf decoding of proposed membership changes (uninterpreted)'],
          'cone': {'S': ['raft']},
@@ -331,8 +331,8 @@ PROPS = {'C18': {'title': 'Inflights window is a bounded FIFO under resizing',
          'undecided': ['completion in a healthy cluster'],
          'assumptions': ['mode S for raft.rs and raw_node.rs (fatal!/panic!/assert! abort; postconditions hold on normal return)',
                          'assumed contracts (fingerprint-locked in spec/assumed.lock.json): ProgressTracker::{get_mut, record_vote, clear}, '
-                         'Configuration::to_conf_state, Raft::has_unapplied_conf_changes, RaftCore::try_batching, '
-                         'ReadOnly::* (abstract model of the pending-read table)',
+                         'Configuration::to_conf_state, Raft::has_unapplied_conf_changes (K-ext Kani), RaftCore::try_batching (K-ext Kani); '
+                         'ReadOnly is under contract over a byte-keyed view of its table: the five std HashMap operations with Vec<u8> / &[u8] keys are specified helpers (verif_ri_*)',
                          'specified helpers for std / protobuf calls (R9) and the three cut texts (R10) listed in the evidence file'],
          'cone': {'S': ['raft']},
          'bounded': []},
@@ -341,7 +341,7 @@ PROPS = {'C18': {'title': 'Inflights window is a bounded FIFO under resizing',
          'body': {'S': []},
          'cone': {'S': ['quorum', 'raft', 'tracker']},
          'modes': ['S'],
-         'claim': 'PARTIAL (leader- and requester-side per-call clauses over an abstract model of the pending-read table)',
+         'claim': 'PARTIAL (leader- and requester-side per-call clauses; the pending-read table (ReadOnly) is verified against its queue/ack model)',
          'decided': ['step_leader: a read is dropped until the leader committed in its term; answered at once only if the leader is the sole voter; otherwise '
                      'recorded with the current commit index and a heartbeat round tagged with its context; handle_heartbeat_response / post_conf_change '
                      'release reads only after a quorum of the active configuration acknowledged the context, and only the queue prefix up to it; '
@@ -350,7 +350,7 @@ PROPS = {'C18': {'title': 'Inflights window is a bounded FIFO under resizing',
          'undecided': ['linearizability over all schedules'],
          'assumptions': ['mode S for raft.rs and raw_node.rs (fatal!/panic!/assert! abort; postconditions hold on normal return)',
                          'assumed contracts (fingerprint-locked in spec/assumed.lock.json): ProgressTracker::{get_mut, record_vote, clear}, '
-                         'Configuration::to_conf_state, Raft::has_unapplied_conf_changes, RaftCore::try_batching, '
-                         'ReadOnly::* (abstract model of the pending-read table)',
+                         'Configuration::to_conf_state, Raft::has_unapplied_conf_changes (K-ext Kani), RaftCore::try_batching (K-ext Kani); '
+                         'ReadOnly is under contract over a byte-keyed view of its table: the five std HashMap operations with Vec<u8> / &[u8] keys are specified helpers (verif_ri_*)',
                          'specified helpers for std / protobuf calls (R9) and the three cut texts (R10) listed in the evidence file'],
          'bounded': ['mon_cluster --prop C08: every ReadState on the issuing node with index >= the highest commit index at issue time']}}
